@@ -737,7 +737,9 @@ class Sort(EnvironmentFilter):
             yield from interactions
             return
 
-        full_sorter = lambda interaction: tuple(interaction['context']                                 )
+        #a scalar (number, string or None) context is a single value rather than a sequence of values
+        is_row      = lambda context: isinstance(context,(primitives.Dense,primitives.Sparse))
+        full_sorter = lambda interaction: tuple(interaction['context']) if is_row(interaction['context']) else (interaction['context'],)
         list_sorter = lambda interaction: tuple(interaction['context'][key]       for key in self._keys)
         dict_sorter = lambda interaction: tuple(interaction['context'].get(key,0) for key in self._keys)
 
